@@ -260,6 +260,11 @@ func confirmByReplay(t *testing.T, run *h.Run, sc *w.Scenario) {
 func requireAntecedents(run *h.Run, names ...string) {
 	for _, n := range names {
 		if run.Counter("antecedent:"+n) == 0 && !run.HasUnknownViolation() {
+			if run.Expired() {
+				// the internal deadline cut the exploration short: nothing is claimed about what was not reached
+				run.NotExhaustive(fmt.Sprintf("deadline reached before antecedent %q was exercised", n))
+				continue
+			}
 			fmt.Printf("HARNESS ERROR: antecedent %q never true (vacuous check)\n", n)
 			exit(2)
 		}
